@@ -822,11 +822,13 @@ func (wf *WALFileType) Shutdown() {
 // for the remaining triggers to fire, returning.
 func (wf *WALFileType) finishAndWait() {
 	const tryCloseInterval = 500 * time.Millisecond
-	wf.tpd.triggerWg.Wait()
 	for {
 		if len(wf.txnPipe.writeChannel) == 0 && len(wf.tpd.c) == 0 {
 			close(wf.tpd.c)
 			<-wf.tpd.done
+			// wait for the triggers only after the dispatcher has stopped starting new ones: waiting first
+			// raced with the dispatcher's Add and missed the triggers of the records dispatched last
+			wf.tpd.triggerWg.Wait()
 			return
 		}
 		time.Sleep(tryCloseInterval)
